@@ -134,6 +134,32 @@ func readOuts(res *Result, outs []tensor.Tensor) {
 func RunOp(c *OpCase) Result {
 	ins := TJsT(c.Inputs)
 	switch c.Route {
+	case "op-same":
+		// every input position receives the very same tensor object
+		t := ToG(ins[0])
+		g := make([]tensor.Tensor, len(ins))
+		for i := range g {
+			g[i] = t
+		}
+		before := Snapshot(t)
+		res := RunOpTensors(c.Op, NodeForCase(c), g)
+		if d := before.Diff(Snapshot(t)); d != "" {
+			res.Mutated = "input 0: " + d
+		}
+		return res
+	case "model-same":
+		node := NodeForCase(c)
+		for i := range node.Input {
+			node.Input[i] = "in0"
+		}
+		gr := &onnx.GraphProto{Name: "g", Node: []*onnx.NodeProto{node}}
+		gr.Input = append(gr.Input, ValueInfo("in0", ins[0].DT, FixedDims(ins[0].Shape)))
+		var outNames []string
+		for _, o := range node.Output {
+			gr.Output = append(gr.Output, ValueInfoNoShape(o))
+			outNames = append(outNames, o)
+		}
+		return RunModelBytes(Marshal(Model(gr, 13)), map[string]*ref.T{"in0": ins[0]}, outNames)
 	case "", "op":
 		g := ToGs(ins)
 		if c.Trail {
